@@ -10,7 +10,7 @@ def key_fn(case, obs, verdict):
     v = verdict[4:] if verdict.startswith("BAD:") else verdict
     v = re.sub(r"instance_'[^']*'", "instance", v)   # which instance hit a runtime fault is schedule dependent
     f = case.split(" ")
-    if f[0] == "race":
+    if f[0] == "race" or v.startswith("race:") or v.startswith("fatal:"):
         # race:<function pairs> — the family is the set of racing functions (pool/variant left out)
         return v.split("@")[0][:200]
     parts = v.split(":")
